@@ -50,10 +50,10 @@ static expression_t replace_at(const expression_t& e, int& idx, int at, const st
 }
 static expression_t pick_expression(Ctx& cx, QB*& qb)
 {
-    int q = vf_pick("!is_query", 2);
+    int q = vf_pick("is_query", 2);
     expression_t e;
-    if (!q) { e = cx.expr(EXPRS[vf_pick("!expr", NEXPR)]); }
-    else { qb = new QB(cx.doc); parseProperty(QUERIES[vf_pick("!query", NQUERY)], qb, ""); e = qb->query; }
+    if (!q) { e = cx.expr(EXPRS[vf_pick("expr", NEXPR)]); }
+    else { qb = new QB(cx.doc); parseProperty(QUERIES[vf_pick("query", NQUERY)], qb, ""); e = qb->query; }
     return e;
 }
 
@@ -106,7 +106,7 @@ extern "C" void harness_equality()  /* vf: bounds=single-node_perturbations_at_e
     expression_t c1 = e.clone_deeper(), c2 = c1.clone_deeper();
     vf_assert(e.equal(c1) && c1.equal(c2) && e.equal(c2) && c2.equal(e), "transitive-symmetric-on-clones");
     std::vector<expression_t> ne; walk(e, ne);
-    int at = vf_range("!node", 0, (int)ne.size() - 1), pert = vf_pick("!perturbation", 5);
+    int at = vf_range("node", 0, (int)ne.size() - 1), pert = vf_pick("perturbation", 5);
     const expression_t& n = ne[at];
     int idx = 0; expression_t p; bool differs = true;
     symbol_t other; cx.b.frames.top().resolve("j", other);
@@ -149,7 +149,7 @@ extern "C" void harness_equal_pairs()  /* vf: bounds=all_ordered_pairs_of_the_po
 {
     Ctx cx; QB* qb = nullptr;
     vf_assert(cx.declare(DECLS) == 0, "declarations-accepted");
-    int a = vf_pick("!a", NEXPR), b = vf_pick("!b", NEXPR);
+    int a = vf_pick("a", NEXPR), b = vf_pick("b", NEXPR);
     expression_t ea = cx.expr(EXPRS[a]), eb = cx.expr(EXPRS[b]);
     bool ab = ea.equal(eb), ba = eb.equal(ea);
     vf_assert(ab == ba, "symmetric");
@@ -176,7 +176,7 @@ extern "C" void harness_subst()  /* vf: bounds=24_expressions+27_queries_x_7_sym
     expression_t e = pick_expression(cx, qb);
     vf_assert(!e.empty() && cx.nerr() == 0, "pool-expression-parses");
     static const char* SYMS[] = {"i", "j", "a", "b", "r", "x", "d"};
-    symbol_t s; bool found = cx.b.frames.top().resolve(SYMS[vf_pick("!symbol", 7)], s);
+    symbol_t s; bool found = cx.b.frames.top().resolve(SYMS[vf_pick("symbol", 7)], s);
     vf_assert(found, "symbol-declared");
     std::string text = e.str();
     std::vector<expression_t> n0; walk(e, n0);
